@@ -21,7 +21,7 @@ BASES = {
 SLOTS = {"b1": (1, 8, 13), "b2": (1, 7, 17), "b3": (1, 5, 18)}
 SNIPPETS = {
     "lexical": [".ascii 'abc", "lda.q 1", "lda 1,z", ".foo 1", "lda #!1"],
-    "syntax": ["lda.w", "sta.w #", ".macro (", "= 5"],
+    "syntax": ["lda.w", "sta.w #", ".macro (", "= 5", "}", "{\nnop\n}\n}"],
     # `faulty` is a macro other cases of this family define: it must still be undefined in a source that does not
     "undefined_macro": ["nosuchmacro(1)", "faulty()"],
     # an argument naming a symbol defined nowhere, through a parameter that is unused / shadows an outer symbol
@@ -38,7 +38,9 @@ SNIPPETS = {
     "undefined_operand_nosuffix": ["lda nosuchsym"],
     "unmapped_position": ["*=0x700000\n.db 1", "*=0xD08000\n.db 1", "*=0xEF8000\n.db 1", "*=0x7D0000\n.db 1",
                           # data that runs from the last mapped bank into an unmapped one
-                          "*=0x6FFFFE\n.db 1, 2, 3, 4", "*=0xCFFFFE\nlda.l 0x123456\nnop"],
+                          "*=0x6FFFFE\n.db 1, 2, 3, 4", "*=0xCFFFFE\nlda.l 0x123456\nnop",
+                          # addresses beyond 24 bits
+                          "*=0x1008000\n.db 1", "@=0x2C08000\n.db 1"],
     "undefined_equ": ["vv = nosuchsym + 1"],
     "undefined_operand": ["lda.w nosuchsym", "jmp.w nosuchsym"],
     "undefined_data": [".dw nosuchsym", ".db 1, nosuchsym"],
